@@ -1,0 +1,14 @@
+//go:build verif
+
+package common
+
+// VerifProbe reports whether the map's mutex is free right now. It is meant
+// for a verification harness that has stopped every other goroutine.
+func (m *GenericSyncMap[K, V]) VerifProbe() bool {
+	if m.mtx.TryLock() {
+		m.mtx.Unlock()
+		return true
+	}
+
+	return false
+}
